@@ -130,6 +130,12 @@ def unlet(x, ren=None, namer=None):
                 newparams.append(p)
         for n in _params_names(params):
             new.pop(n, None)
+        # (global n) "always refers to module-level variables": inside this function n is
+        # the module's n, not an enclosing let's
+        for b in x[k + 1:]:
+            if is_form(b, "global"):
+                for n in b[1:]:
+                    new.pop(n, None)
         body = tuple(unlet(b, new, namer) for b in x[k + 1:])
         head = (h,) if name is None else (h, name)
         return head + (tuple(newparams),) + body
@@ -165,7 +171,9 @@ def unlet(x, ren=None, namer=None):
                 i += 2
         out += [unlet(f, new, namer) for f in final]
         return tuple(out)
-    if h in ("global", "nonlocal"):
+    if h == "global":
+        return x
+    if h == "nonlocal":
         return (h,) + tuple(ren.get(n, n) for n in x[1:])
     if h == "except":
         # (except [var Type] body...) : var is let-like (bound only inside)
@@ -302,7 +310,8 @@ def _owner_for_assign(name, fr):
             if g.kind == "function" and name in g.locals and name not in g.nonlocal_decl and name not in g.globals_decl:
                 return g
             g = g.parent
-        raise RefError("nonlocal %s: no binding" % name)
+        # docs (nonlocal): "... or a module-level variable, for which it compiles to global"
+        return f.module()
     return f
 
 
@@ -1152,6 +1161,11 @@ class Interp:
                     if isinstance(e, types):
                         if var is not None:
                             assign(var, e, fr)
+                            try:
+                                return self.body(hd[2:], fr)
+                            finally:
+                                # Python unbinds the except variable when the handler ends
+                                _owner_for_assign(var, fr).vars.pop(var, None)
                         return self.body(hd[2:], fr)
                 raise
             else:
